@@ -286,6 +286,14 @@ func main() {
 	r.Evaluations += seqPairs
 	r.DistinctNontriv += seqPairs
 	r.Extra["sequence_pairs_on_one_parser"] = seqPairs
+	// values whose TYPE the process has encoded before with other content (with / without attachments)
+	thFs, thN := typeHistories(creator())
+	for _, f := range thFs {
+		r.Violate(f.key, f.msg, map[string]any{"part": "type-histories", "tier": *tier})
+	}
+	r.Evaluations += thN
+	r.DistinctNontriv += thN
+	r.Extra["values_with_a_type_history"] = thN
 	r.Extra["blocks"] = bstats
 	r.Extra["note_on_counters"] = "the counters below are per oracle run: a packet whose numbering depends on map order is run 4 times (map_order_repeats)"
 	r.Extra["frames_byte_identical_to_reference"] = total.ByteIdentical
